@@ -11,5 +11,5 @@ for p in "$@"; do
   out=$(/verif/check.py $p --tier quick 2>&1); rc=$?
   e=$(date +%s)
   echo "[$p] rc=$rc time=$((e-s))s $(echo "$out" | grep -c '^VIOLATION') violation line(s)"
-  echo "$out" | grep -A1 '^VIOLATION' | cut -c1-400 | head -8
+  echo "$out" | grep -A1 "^VIOLATION\|HARNESS ERROR" | cut -c1-400 | head -10
 done
